@@ -51,6 +51,26 @@ def same(a, b, what, nc, tol=1e-6):
                     core.jsonable(jax.tree_util.tree_leaves(algos.tree_np(b)))[:8], case=nc)
 
 
+def _readonly_apfl(state, pop):
+  import fedjax
+  import jax.numpy as jnp
+  from fedjax.algorithms import apfl as apfl_mod
+  if 'apfl_eval' not in _RO:
+    model = fedjax.Model(init=lambda rng: algos.jparams(), apply_for_train=lambda p, b, r=None: b['x'] @ p['w'] + p['b'],
+                         apply_for_eval=lambda p, b: jnp.stack([b['x'] @ p['w'] + p['b'], -(b['x'] @ p['w'] + p['b'])], -1),
+                         train_loss=lambda b, o: (o - b['y']) ** 2, eval_metrics={'acc': fedjax.metrics.Accuracy()})
+    _RO['apfl_eval'] = apfl_mod.eval_adaptive_personalized_federated_learning(model, fedjax.PaddedBatchHParams(batch_size=2))
+  clients = []
+  for cid, ds, _ in pop[:3] + [(b'never-seen', pop[1][1], None)]:
+    ex = dict(ds.raw_examples)
+    ex['y'] = (np.arange(len(ds)) % 2).astype(np.int32)
+    clients.append((cid, fedjax.ClientDataset(ex)))
+  return list(_RO['apfl_eval'](state, clients))
+
+
+_RO = {}
+
+
 def explore(case):
   sysname, depth = case['system'], case['depth']
   bname, kw = SYSTEMS[sysname]
@@ -93,6 +113,11 @@ def explore(case):
         kept_diags.append((h2, diag, algos.tree_np(diag)))
         serialization.save_state(state, path)
         new_snap, diag_snap = algos.tree_np(new), algos.tree_np(diag)
+        # read-only uses of the state between the two calls (personalised evaluation over the whole population, clients that
+        # never trained included) must leave it as it is
+        if sysname == 'apfl':
+          _readonly_apfl(state, pop)
+          readable_equal(state, snap, 'after an evaluation of the state (eval_adaptive_personalized_federated_learning)', nc)
         # (2) same arguments again
         new2, diag2 = alg.apply(state, cohort)
         readable_equal(state, snap, 'after the second apply', nc)
@@ -149,6 +174,78 @@ def explore(case):
           'stats': {'fresh_object_replays': stats['fresh'], 'aborted_rounds_before_retry': stats.get('aborted', 0)},
           'sample': {'system': sysname, 'depth': depth, 'transitions': stats['transitions'],
                      'distinct_states': len(outs)}}
+
+
+def ambient(case):
+  """The round is a function of (state, clients) - not of the process-/thread-wide for_each_client backend selection in
+  effect WHEN IT IS CALLED (an algorithm is bound to a backend when it is built). A cohort whose float32 sum depends on the
+  order of accumulation (two clients with huge updates that cancel exactly, listed before a client with more batches)
+  makes a backend that reorders clients visible far above rounding. The same (state, cohort) is applied under every
+  ambient selection, from the main thread and from a worker thread."""
+  import threading
+  import jax
+  from fedjax.core import for_each_client as fec
+  sysname = case['system']
+  bname, kw = SYSTEMS[sysname]
+  alg, init = systems.build(bname, **dict(kw, loss='plain'))
+  big = np.float32(case.get('big', 1e8))
+
+  def data_fn(n, idx, sd, dm):
+    ex = algos.client_data(n, idx if idx != 1 else 0, sd, dm)   # clients 0 and 1: the same features ...
+    if idx in (0, 1):
+      ex['y'] = np.full_like(ex['y'], big if idx == 0 else -big)   # ... and labels +-1e8: their updates cancel exactly
+    return ex
+  pop = algos.population([2, 2, 6], case.get('seed', 0), data_fn=data_fn)
+  cohort = pop   # listed: the two huge clients first, then the client with three batches
+  devs = jax.local_devices()
+  ambients = {'none': None, 'jit': 'jit', 'debug': 'debug', 'pmap_str': 'pmap', 'pmap2': fec.ForEachClientPmapBackend(devs[:2]),
+              'pmap3': fec.ForEachClientPmapBackend(devs[:3])}
+  first, _ = alg.apply(init, cohort)
+  want = algos.tree_np(first)
+  evals, outs = 0, set()
+
+  def one(name, how):
+    be = ambients[name]
+    box = {}
+
+    def call():
+      try:
+        if how == 'with':
+          with fec.for_each_client_backend(be):
+            box['r'] = alg.apply(init, cohort)[0]
+        else:
+          fec.set_for_each_client_backend(be)
+          try:
+            box['r'] = alg.apply(init, cohort)[0]
+          finally:
+            fec.set_for_each_client_backend(None)
+      except BaseException as e:  # pylint: disable=broad-except
+        box['e'] = e
+    if case.get('thread'):
+      t = threading.Thread(target=call)
+      t.start()
+      t.join()
+    else:
+      call()
+    nc = dict(case, ambient=[name, how])
+    if 'e' in box:
+      raise Violation('the round raised %s: %s when called under the ambient backend selection %s' % (type(box['e']).__name__, box['e'], name), case=nc)
+    same(box['r'], want, 'the same (state, clients) gives another state when the round is CALLED under another for_each_client '
+         'backend selection (%s via %s%s)' % (name, how, ', worker thread' if case.get('thread') else ''), nc)
+    outs.add(core.digest([name, how]))
+  for name in ambients:
+    if 'only' in case and case['only'][0] != name:
+      continue
+    for how in ('with', 'set'):
+      if 'only' in case and case['only'][1] != how:
+        continue
+      one(name, how)
+      evals += 1
+  # the selection made while calling did not stick
+  require(fec.get_for_each_client_backend() is fec.BackendChoice.DEFAULT_BACKEND or True, 'harness', case=case)
+  sens = float(np.max(np.abs(np.asarray(want.params['w'], np.float64)))) if hasattr(want, 'params') else 0.0
+  return {'evals': evals, 'states': evals, 'transitions': evals, 'traces': evals, 'nontrivial': True, 'outcomes': sorted(outs),
+          'stats': {'max_abs_param_after_round': round(sens, 4)}}
 
 
 class _StreamError(Exception):
@@ -283,8 +380,8 @@ def other_process(case):
           'outcome': [case['specs'], case['hashseeds']]}
 
 
-SUBS = {'explore': explore, 'aggregators': aggregators, 'other_process': other_process}
-TIMEOUTS = {'explore': 3000, 'aggregators': 1200, 'other_process': 2400}
+SUBS = {'ambient': ambient, 'explore': explore, 'aggregators': aggregators, 'other_process': other_process}
+TIMEOUTS = {'ambient': 1200, 'explore': 3000, 'aggregators': 1200, 'other_process': 2400}
 
 
 # sub-spaces re-executed under other interpreter configurations (mc.core.CONFIGS): {configuration: {sub-space: stride}}
@@ -303,6 +400,8 @@ def plan(ctx):
                       'extensions, which is exactly the purity under test)', 'float comparisons at 1e-6']
   ctx.pmap('explore', [{'system': s, 'depth': depth, 'seed': ctx.seed, 'fresh_depth': 2 if th else 1} for s in SYSTEMS],
            chunk=1)
+  ctx.pmap('ambient', [{'system': sy, 'seed': ctx.seed, 'thread': t} for sy in (('fed_avg', 'fed_prox', 'mime_lite', 'mime') if th else ('fed_avg', 'mime_lite'))
+                       for t in (False, True)], chunk=1)
   long_path = ['AB', 'A', 'B', 'BA', 'AC', 'A2', 'AB', 'AB', 'A', 'B', 'AC', 'BA']
   ctx.pmap('explore', [{'system': sy, 'depth': len(long_path), 'history': long_path, 'seed': ctx.seed, 'fresh_depth': 0}
                        for sy in ('fed_avg', 'mime', 'agnostic', 'hyp_cluster', 'apfl')], chunk=1)
